@@ -29,6 +29,10 @@ func c06messages() [][]byte {
 		nasTestpacket.GetConfigurationUpdateComplete(),
 		nasTestpacket.GetStatus5GMM(0x6f),
 	}
+	// eight consecutive lengths, so that every residue of the message length (and of SQN||message) mod 4, 8 and 16 occurs
+	for n := 0; n < 8; n++ {
+		msgs = append(msgs, nasTestpacket.GetSecurityModeComplete(pattern(3, 8+n)))
+	}
 	return msgs
 }
 
